@@ -143,5 +143,9 @@ pub fn line(rng: &mut Rng, mistake_pct: u64) -> String {
     if rng.chance(1, 8) {
         parts.push(rng.s(&["DATA 1, two", "REM note", "DATA \"q\""]).to_string());
     }
+    if rng.chance(1, 8) {
+        // a DATA statement ends at the first colon: what follows it on the line is executed like any statement
+        parts.insert(0, rng.s(&["DATA 1,2", "DATA SUP, \"DOG\"", "DATA", "DATA \"a:b\""]).to_string());
+    }
     parts.join(rng.s(&[" : ", ":", " :"]))
 }
